@@ -409,7 +409,10 @@ def run_case(ctx, L, i):
         rc4, E4, problems = one_run(ctx, L, data, o, target_kind, 'accept', i, 'R4', handler=handler, answers=answers, chunk=chunk, fail_at=k, deep=deep)
         report(problems, 'R4')
         ctx.add('io_fault_results', str(rc4))
-        if rc4 not in DEFINED_CODES:
+        if not L.last_read_failures:
+            # the parse ended before the failing read (a steering handler answered END, or a rejected error): no fault
+            ctx.count('io_faults_not_reached')
+        elif rc4 not in DEFINED_CODES:
             ctx.violation('parse:io-fault:rc-undefined', 'read %d failing: cif_parse returned %d' % (k, rc4), info)
         elif rc4 == CIF_OK:
             ctx.violation('parse:io-fault:reported-success', 'read %d of about %d failed and cif_parse returned CIF_OK (%d errors reported)' % (k, reads, len(E4)), info)
@@ -485,7 +488,8 @@ def run(env):
             seed_kinds=sorted(res.sets.get('seed_kinds', ())), targets=sorted(res.sets.get('targets', ())),
             largest_input_bytes=res.count('largest_input'),
             fuzzer_executions=fz['executions'], fuzzer_coverage_edges=fz['coverage_edges'], fuzzer_features=fz['features'],
-            fuzzer_seed_corpus=fz['seed_corpus'],
+            fuzzer_seed_corpus=fz['seed_corpus'], fuzzer_slow_units_clean_when_run_alone=fz.get('slow_units_clean_when_run_alone', 0),
+            io_faults_not_reached_because_the_parse_ended_first=res.count('io_faults_not_reached'),
             cifs_exercised_after_parse=res.count('cifs_exercised'), io_faults_injected=res.count('io_faults_injected'),
             io_fault_results=sorted(res.sets.get('io_fault_results', ())), invalid_option_runs=res.count('invalid_option_runs'),
             crashes=res.crashes),
